@@ -321,7 +321,12 @@ def main():
             uid = r["unit"]
             u = units.get(uid)
             rec = {"found": False}
-            if u is not None and u.runtime:
+            if u is not None and u.runtime and u.runtime.get("replay_fn"):
+                try:
+                    rec = u.runtime["replay_fn"](r.get("model") or {}, r["label"], np.random.default_rng([seed, 23]))
+                except Exception as e:
+                    rec = {"found": False, "error": repr(e)[:300]}
+            elif u is not None and u.runtime:
                 rt = u.runtime
                 rng = np.random.default_rng([seed, 17, sum(map(ord, uid))])
                 label = r["label"].split("#")[0]
